@@ -36,9 +36,9 @@ func init() {
 		Rule: "one run = blocking / deadline / queue limiter with all capacity held for the whole run (variant A) or released on the same 1 ms grid as the bounds (variant B); callers arrive at grid instants with backlog timeouts (1 ns .. 1 h, 0 = documented default 1 s), deadlines at/before/after creation and arrival, cancellations before/at/after arrival; " +
 			"oracle on the virtual clock: a refused blocked call returned exactly at its bound (arrival+timeout, deadline, cancel instant), never earlier, never later; calls with an already-cancelled context or after the deadline are refused at the arrival instant without consuming capacity; " +
 			"non-trivial = at least one caller was blocked and returned at a bound; distinct = distinct event hashes",
-		Real:       []string{"limiter.BlockingLimiter", "limiter.DeadlineLimiter", "limiter.QueueBlockingLimiter", "limiter.DefaultLimiter", "strategy.*"},
-		Stubs:      []string{"logger", "recording metric registry"},
-		FaultKinds: []string{"F-timeout", "F-cancel", "F-preempt"},
+		Real:        []string{"limiter.BlockingLimiter", "limiter.DeadlineLimiter", "limiter.QueueBlockingLimiter", "limiter.DefaultLimiter", "strategy.*"},
+		Stubs:       []string{"logger", "recording metric registry"},
+		FaultKinds:  []string{"F-timeout", "F-cancel", "F-preempt"},
 		Assumptions: []string{"synctest fake clock: timers fire at exact instants; equality instants are explored on purpose"},
 	})
 	Register(&Prop{
